@@ -778,8 +778,35 @@ pub fn c11_cases(quick: bool) -> Vec<IoRun> {
                 }
             }
         }
-        // reduction of structured byte strings of every length 0..=200 (pure clause, sampled)
-        for l in (0..=200usize).step_by(if quick { 7 } else { 1 }) {
+        // reduction of structured byte strings of every length 0..=200 (pure clause, sampled), then longer ones
+        // around the block boundaries a chunked or table-driven reduction would have
+        let mut lens: Vec<usize> = (0..=200usize).step_by(if quick { 7 } else { 1 }).collect();
+        lens.extend([255usize, 256, 257, 258, 288, 384, 385, 480, 481, 512, 513, 736, 737, 768, 1024, 1025, 2048, 2049]);
+        // histories on one thread: a short string first, then a long one; a long one, then a longer one
+        for (a, b) in [(32usize, 257usize), (300, 400), (8, 2049), (257, 32)] {
+            let pb = f.p.to_bytes_le();
+            let sa: Vec<u8> = (0..a).map(|i| pb[i % pb.len()] ^ 0x5a).collect();
+            let sb: Vec<u8> = (0..b).map(|i| pb[(i * 7) % pb.len()]).collect();
+            out.push(IoRun {
+                fpool: vec![
+                    FieldOp { which: w, src: FSrc::LeMod(hex(&sa)) },
+                    FieldOp { which: w, src: FSrc::LeMod(hex(&sb)) },
+                    FieldOp { which: w, src: FSrc::BeMod(hex(&sb)) },
+                    FieldOp { which: w, src: FSrc::LeModTrait(hex(&sa)) },
+                    FieldOp { which: w, src: FSrc::LeModTrait(hex(&sb)) },
+                ],
+                ..Default::default()
+            });
+        }
+        // wide integers through From<BigUint>: 2^(64 k) + 5 for digit counts around fixed-buffer guesses
+        for k in [4usize, 6, 31, 32, 33, 64, 255, 256, 257] {
+            let v = (BigUint::from(1u32) << (64 * k)) + 5u32;
+            out.push(IoRun {
+                fpool: vec![FieldOp { which: w, src: FSrc::Big(v.to_string()) }],
+                ..Default::default()
+            });
+        }
+        for l in lens {
             let pb = f.p.to_bytes_le();
             let ones = vec![0xffu8; l];
             let pat: Vec<u8> = (0..l).map(|i| pb[i % pb.len()]).collect();
